@@ -86,6 +86,12 @@ Definition form_ok (ds : list (nat * decl)) (x : form) : bool :=
       negb (f =? vanilla) && negb (defined ds f) && forallb (fun c => negb (c =? vanilla) && defined ds c) comps
   | DMethod f _ _ _ _ => negb (f =? vanilla) && defined ds f
   end.
+(* forms that name vanilla-flavor itself are outside the specification *)
+Definition names_vanilla (x : form) : bool :=
+  match x with
+  | DFlavor f _ comps _ _ _ => (f =? vanilla) || existsb (fun c => c =? vanilla) comps
+  | DMethod f _ _ _ _ => f =? vanilla
+  end.
 Fixpoint wf_from (ss : sstate) (h : list form) : bool :=
   match h with [] => true | x :: h' => form_ok (ss_decls ss) x && wf_from (sstep ss x) h' end.
 Definition wf (h : list form) : bool := wf_from s_init h.
